@@ -19,6 +19,7 @@
 \* and any of them is accepted.
 \*
 \* tokens  <<"n", name>>  name token (letter-digit, graphic, quoted, ; !)        <<"i", k>>  integer literal k >= 0
+\*         <<"num", s>>   numeric literal given by its text s (64-bit integers and floats do not fit TLC's integers)
 \*         <<"v", k>>     variable number k                                       <<"p", s>>  punctuation, s one of
 \*         "(" (open, after layout)  "(ct" (open directly after the previous token)  ")" "[" "]" "{" "}" "," "|"
 \* terms   <<"a", name>>  <<"i", k>>  <<"v", k>>  <<"c", functor, <<args>>>>      (lists are '.'/2 chains ending in [])
@@ -28,7 +29,8 @@ EXTENDS Integers, Sequences, FiniteSets, TLC
 A(s) == <<"a", s>>
 C(f, args) == <<"c", f, args>>
 IsName(t) == t[1] = "n"
-IsInt(t) == t[1] = "i"
+IsInt(t) == t[1] = "i" \/ t[1] = "num"
+Negated(t) == IF t[1] = "i" THEN <<"i", 0 - t[2]>> ELSE <<"num", "-" \o t[2]>>
 IsP(t, s) == t[1] = "p" /\ t[2] = s
 
 OpDefs(T, f, cls) == { d \in T : d[1] = f /\ d[2] = cls }
@@ -60,7 +62,7 @@ Compute(toks, T, mode, M, i, j) ==
                 ELSE {}
       \* 6.3.4.1: a name token - followed by a numeric literal denotes the negative number
       MinusNum(a) == a < Len(toks) /\ IsName(tk(a)) /\ tk(a)[2] = "-" /\ IsInt(tk(a + 1))
-      NegNum == IF j = i + 1 /\ MinusNum(i) THEN { << <<"i", 0 - tk(j)[2]>>, 0>> } ELSE {}
+      NegNum == IF j = i + 1 /\ MinusNum(i) THEN { <<Negated(tk(j)), 0>> } ELSE {}
       Empty == IF j # i + 1 THEN {}
                ELSE IF IsP(tk(i), "[") /\ IsP(tk(j), "]") THEN { <<A("[]"), 0>> }
                ELSE IF IsP(tk(i), "{") /\ IsP(tk(j), "}") THEN { <<A("{}"), 0>> }
